@@ -147,6 +147,10 @@ class BaseProtoServer(object):
   def _reply(self, conn, req, data, label):
     act = self.policy(self, conn, req) or {}
     req['action'] = {k: v for k, v in act.items() if k != 'chunks'}
+    if act.get('as') in ('rerr', 'bad_rerr') and req.get('proto') == 'mux':
+      # answer the tag with an error frame (current or legacy encoding) instead of Rdispatch
+      data = mc.rerr(req['tag'], b'server error', bad=(act['as'] == 'bad_rerr'))
+      label = '%s:%d' % (act['as'], req['tag'])
     if act.get('close') and act.get('close_before_reply'):
       conn.close_by_server(act['close'], act.get('close_delay', 0.0))
       return
